@@ -8,6 +8,8 @@ import CatiiProofs.FromArrayWf
 import CatiiProofs.ColumnStack
 import CatiiProofs.Reindexed
 import CatiiProofs.Sliced
+import CatiiProofs.Collapsed
+import CatiiProofs.SetUpdates
 /-!
 # C07 — every operation preserves index well-formedness
 
@@ -16,11 +18,16 @@ common value, no empty entry, row ids strictly increasing and below the row coun
 coordinates within the shape, no row under two values of the same column.  `wf` is the decidable
 version the harness evaluates on every real result; `wf_sound` ties the two.
 
-**Partial**: preservation is proved for `shift_common` (any value, and the library-chosen one),
-`copy`, `append` (any operands with the same higher shape whose rows fit 32 bits), `filtered` (any mask), `update` (any consistent cell assignments), `column_stack`, `reindexed`, `sliced` and construction
-from arrays (`from_array_wellformed`); for the other operations it is checked after every step of every generated history
-on the real code (`validate(True)` plus the range / arity / non-emptiness conditions) and on the
-model (`wf`), but is not yet a theorem.
+Preservation is a theorem for every operation of the property: construction (`from_array_wellformed`, both
+strategies), `copy`, `shift_common` (given or library-chosen value), `append`, `filtered`, `update`, `reindexed`,
+`sliced`, `column_stack`, `collapsed` (for *every* input: its result is built by `from_array`), and the entry-wise
+set updates (`difference_update` / `intersection_update` always; `union_update` when what it adds assigns no cell
+a second value — which is what well-formedness of its result means).  Each theorem is stated under the
+operation's own precondition (e.g. same higher shape and combined rows within 32 bits for `append`; one order
+per higher axis for `sliced`).  `slices1d` yields the per-column slices of C13 (`CatiiProps/C13`).  The names
+keep the suffix `_partial` where the model restricts the number of axes to the one/two the code supports.
+The real code is checked after every step of every generated history (`validate(True)` plus the range / arity /
+non-emptiness conditions) and its results are compared with the model (`wf`).
 -/
 namespace Catii.C07
 open Catii.IIdx
@@ -72,6 +79,33 @@ theorem sliced_preserves_partial (i : IIndex) (orders : List Order) (ok : SliceO
     ∃ r, sliced i orders = .ok r ∧ WF r := by
   obtain ⟨r, h1, h2, _⟩ := sliced_refines ok
   exact ⟨r, h1, h2⟩
+
+/-- `collapsed(precedence, mapping)` returns a well-formed index for every receiver, precedence list and mapping -/
+theorem collapsed_wellformed (i : IIndex) (prec : List Int) (mapping : Option (List (Int × Int))) (r : IIndex)
+    (hr : collapsed i prec mapping = .ok r) : WF r :=
+  collapsed_wf i prec mapping r hr
+
+/-- `difference_update` keeps the index well-formed -/
+theorem difference_update_preserves (i : IIndex) (other : List (Key × Rows)) (h : WF i)
+    (ho : ∀ e ∈ other, Kern.SSorted e.2) : ∃ r, differenceUpdate i other = .ok r ∧ WF r :=
+  differenceUpdate_wf i other h ho
+
+/-- `intersection_update` (argument a dictionary) keeps the index well-formed -/
+theorem intersection_update_preserves (i : IIndex) (other : List (Key × Rows)) (h : WF i)
+    (ho : ∀ e ∈ other, Kern.SSorted e.2) (hd : other.Pairwise (fun a b => a.1 ≠ b.1)) :
+    ∃ r, intersectionUpdate i other = .ok r ∧ WF r :=
+  intersectionUpdate_wf i other h ho hd
+
+/-- `union_update` keeps the index well-formed exactly under the condition well-formedness of its result states:
+the added rows fit the shape, avoid the common value, and no cell ends up with two values -/
+theorem union_update_preserves (i : IIndex) (other : List (Key × Rows)) (h : WF i)
+    (ho : ∀ e ∈ other, Kern.SSorted e.2)
+    (hfit : ∀ k r, Listed other k r →
+      k.length = i.ndim ∧ val0 k ≠ i.common ∧ r < i.nrows ∧ k.drop 1 ∈ hiCells (i.shape.drop 1))
+    (hone : ∀ k1 k2 r, (Listed i.entries k1 r ∨ Listed other k1 r) → (Listed i.entries k2 r ∨ Listed other k2 r) →
+      k1.drop 1 = k2.drop 1 → val0 k1 = val0 k2) :
+    ∃ r, unionUpdate i other = .ok r ∧ WF r :=
+  unionUpdate_wf i other h ho hfit hone
 
 /-- consequence named by the property: after re-encoding nothing is listed under the common value
 and no entry is empty, so the set of listed values contains no category that occurs nowhere -/
